@@ -157,6 +157,55 @@ func RWTryRLock(site int, m *sync.RWMutex) bool {
 	return ok
 }
 
+// ---- sync.Once, sync.WaitGroup ----
+
+// OnceDo replaces (*sync.Once).Do: the scheduler decides who runs f; the real Once is still used, so the
+// detector sees its happens-before edges.
+//
+//go:norace
+func OnceDo(site int, o *sync.Once, f func()) {
+	t := me()
+	if t == nil {
+		o.Do(f)
+		return
+	}
+	t.req = request{kind: opOnce, site: site, obj: uintptr(unsafe.Pointer(o)), keep: o}
+	t.call()
+	if t.resp.idx == 1 {
+		o.Do(f)
+		t.addNote(note{kind: noteOnceDone, obj: uintptr(unsafe.Pointer(o)), keep: o})
+		return
+	}
+	o.Do(func() {})
+}
+
+//go:norace
+func WGAdd(site int, wg *sync.WaitGroup, n int) {
+	t := me()
+	if t == nil {
+		wg.Add(n)
+		return
+	}
+	Yield(site)
+	wg.Add(n)
+	t.addNote(note{kind: noteWGAdd, obj: uintptr(unsafe.Pointer(wg)), keep: wg, n: n})
+}
+
+//go:norace
+func WGDone(site int, wg *sync.WaitGroup) { WGAdd(site, wg, -1) }
+
+//go:norace
+func WGWait(site int, wg *sync.WaitGroup) {
+	t := me()
+	if t == nil {
+		wg.Wait()
+		return
+	}
+	t.req = request{kind: opWGWait, site: site, obj: uintptr(unsafe.Pointer(wg)), keep: wg}
+	t.call()
+	wg.Wait()
+}
+
 // ---- channels ----
 //
 // The rewriter keeps the real channel operation and puts a Wait call in
